@@ -21,6 +21,7 @@ import (
 	"io"
 	"os"
 	"path/filepath"
+	"runtime/debug"
 	"sort"
 	"strings"
 	"testing"
@@ -364,12 +365,19 @@ func c13plain(f func(string) error) func([]string) (error, []string, []string) {
 
 // c13hostTagKeys returns the product names declared as keys of HostTags in a host rule file
 // (independent lenient read; used only to *widen* the set of existing products).
+var c13htkText string
+var c13htkKeys map[string]bool
+
 func c13hostTagKeys(path string) map[string]bool {
 	out := map[string]bool{}
 	b, err := os.ReadFile(path)
 	if err != nil {
 		return out
 	}
+	if c13htkKeys != nil && c13htkText == string(b) {
+		return c13htkKeys
+	}
+	c13htkText, c13htkKeys = string(b), out
 	n, err := c13parse(string(b))
 	if err != nil || n.kind != 'o' {
 		return out
@@ -756,15 +764,25 @@ type c13env struct {
 	t       *testing.T
 	scratch string
 	loaders map[string]c13loader
+	last    []string // text currently in scratch file i
+	lastOK  []bool
 }
 
 func (e *c13env) write(texts []string) []string {
 	paths := make([]string, len(texts))
 	for i, s := range texts {
 		paths[i] = filepath.Join(e.scratch, fmt.Sprintf("f%d.data", i))
+		for len(e.last) <= i {
+			e.last = append(e.last, "")
+			e.lastOK = append(e.lastOK, false)
+		}
+		if e.lastOK[i] && e.last[i] == s {
+			continue // loaders only read the files
+		}
 		if err := os.WriteFile(paths[i], []byte(s), 0o644); err != nil {
 			e.t.Fatalf("c13: write scratch: %v", err)
 		}
+		e.last[i], e.lastOK[i] = s, true
 	}
 	return paths
 }
@@ -817,6 +835,17 @@ func c13show(texts []string) string {
 		}
 		fmt.Fprintf(&sb, "[file %d] %s ", i, s)
 	}
+	return sb.String()
+}
+
+// c13canon renders a JSON text without insignificant white space (text itself when not JSON).
+func c13canon(text string) string {
+	n, err := c13parse(text)
+	if err != nil {
+		return text
+	}
+	var sb strings.Builder
+	n.render(&sb)
 	return sb.String()
 }
 
@@ -891,7 +920,7 @@ func c13readSeeds(e *c13env, repo string) []*c13seed {
 					b = c13stripComments(b)
 				}
 				set[ln] = b
-				key := ln + "\x00" + b
+				key := ln + "\x00" + c13canon(b)
 				if dedup[key] {
 					e.r.Outcome("doc-block:same-text-as-earlier-block")
 					continue
@@ -901,7 +930,7 @@ func c13readSeeds(e *c13env, repo string) []*c13seed {
 			}
 			// the walk-through pages give a whole server data conf (vip file: the shipped one)
 			if (rel == "example/route.md" || rel == "example/fastcgi.md") && set["host"] != "" && set["route"] != "" && set["cluster_conf"] != "" {
-				key := "sdc\x00" + set["host"] + set["route"] + set["cluster_conf"]
+				key := "sdc\x00" + c13canon(set["host"]) + c13canon(set["route"]) + c13canon(set["cluster_conf"])
 				if !dedup[key] {
 					dedup[key] = true
 					seeds = append(seeds, mk("sdc", fmt.Sprintf("doc:%s/%s", lang, rel), []string{set["host"], conf["vip"], set["route"], set["cluster_conf"]}, true))
@@ -932,8 +961,16 @@ func c13readSeeds(e *c13env, repo string) []*c13seed {
 			}
 		}
 	}
+	// compact whole-server-data-conf seed: the starting point of the double mutations
+	seeds = append(seeds, mk("sdc", "gen:compact", []string{c13hostVariants[2].text, c13vipVariants[1].text, c13routeVariants[4].text, c13clusterVariants[1].text}, true))
 	return seeds
 }
+
+// c13doubleMaxNodes: double mutations start from every mutable seed of at most this many JSON
+// nodes (the three larger ones — conf/ cluster_conf.data, the conf/ and the full generated
+// whole-server-data-conf sets — get all single mutations; their structure is covered by the
+// smaller seeds of the same loaders).
+const c13doubleMaxNodes = 120
 
 // c13mutable says which seeds are the starting points of the mutation enumeration: every
 // loadable documented example; of the generated sdc cross product only the richest one.
@@ -942,7 +979,7 @@ func c13mutable(s *c13seed) bool {
 		return false
 	}
 	if s.loader == "sdc" && strings.HasPrefix(s.name, "gen:") {
-		return s.name == "gen:default-p1/one-v4/basic-advanced-mode-doc-example/doc-full+fcgi+check-only"
+		return s.name == "gen:compact" || s.name == "gen:default-p1/one-v4/basic-advanced-mode-doc-example/doc-full+fcgi+check-only"
 	}
 	return true
 }
@@ -968,6 +1005,7 @@ func TestVerifC13(t *testing.T) {
 	for _, l := range c13loaders() {
 		e.loaders[l.name] = l
 	}
+	debug.SetGCPercent(400)
 	seeds := c13readSeeds(e, repo)
 	idx := 0
 
@@ -1031,7 +1069,7 @@ func TestVerifC13(t *testing.T) {
 
 	// ---- (c) structural mutations (+ (b) on every accepted mutant)
 	double := r.Thorough()
-	var nSingles, nDoubles, nSeeds int64
+	var nSingles, nDoubles, nSeeds, nSeeds2 int64
 	maxNodes := 0
 mut:
 	for _, s := range seeds {
@@ -1045,6 +1083,9 @@ mut:
 		l := e.loaders[s.loader]
 		sites := c13sites(s.doc)
 		nSeeds++
+		if double && len(sites) <= c13doubleMaxNodes {
+			nSeeds2++
+		}
 		if len(sites) > maxNodes {
 			maxNodes = len(sites)
 		}
@@ -1075,7 +1116,7 @@ mut:
 						r.Sample(map[string]interface{}{"case": id, "outcome": out})
 					}
 				}
-				if !double {
+				if !double || len(sites) > c13doubleMaxNodes {
 					continue
 				}
 				if d1 == nil {
@@ -1109,6 +1150,7 @@ mut:
 	r.Add("sum_double_mutations", nDoubles)
 	r.Set("max_nodes_in_a_seed", maxNodes)
 	r.Set("mutated_seed_configurations", nSeeds)
+	r.Set("seed_configurations_with_double_mutations", nSeeds2)
 	r.Set("loaders", len(e.loaders))
 	r.Set("bounds", fmt.Sprintf("%d loaders; seeds = conf/ + docs json examples + generated family (%d host x %d vip x %d route x %d cluster_conf for the whole LoadServerDataConf); mutations per node: del,null,wrong scalar type,boundary scalar,{},[],[null],null pushed,dup key,dup key=null; %s", len(e.loaders), len(c13hostVariants), len(c13vipVariants), len(c13routeVariants), len(c13clusterVariants), map[bool]string{false: "all single mutations", true: "all single and all double mutations"}[double]))
 }
